@@ -146,6 +146,28 @@ Theorem C07_stack_exec : forall ms h lib h' lib',
 Proof. exact run_stack_exec_ok. Qed.
 Print Assumptions C07_stack_exec.
 
+(* The contract above would also be met by a "copy" that is one fresh empty object.  The executable copy is more: a GRAPH
+   ISOMORPHISM of everything reachable from the root onto fresh objects (Proofs/HeapCopyIso.v) - the memo m is an injective
+   renaming, the copy of every reachable object is that object with every reference renamed and every atom kept, and the
+   copy contains nothing else.  This is what "the input library is equal to its prior deep copy" and "the result of a
+   copy-mode middleware has the content the in-place result would have" rest on; C09 uses it for the links inside a copy. *)
+From BP Require Import Proofs.HeapCopyIso.
+Theorem C07_deepcopy_exec_iso : forall h r h' r', wf_heap h -> In r (dom h) -> deepcopy_exec h r = (h', r') ->
+  exists m,
+    memo_get m r = Some r'
+    /\ (forall p, reach h r p -> exists p', memo_get m p = Some p' /\ is_copy_of h h' m p p')
+    /\ (forall k1 k2 v, memo_get m k1 = Some v -> memo_get m k2 = Some v -> k1 = k2)
+    /\ (forall k v, memo_get m k = Some v -> ~ In v (dom h) /\ In v (dom h'))
+    /\ unchanged h h'.
+Proof. exact deepcopy_exec_iso. Qed.
+Print Assumptions C07_deepcopy_exec_iso.
+
+Theorem C07_deepcopy_exec_iso_onto : forall h r h' r', wf_heap h -> In r (dom h) -> deepcopy_exec h r = (h', r') ->
+  exists m, memo_get m r = Some r'
+    /\ (forall p', reach h' r' p' -> exists p, reach h r p /\ memo_get m p = Some p').
+Proof. exact deepcopy_exec_iso_onto. Qed.
+Print Assumptions C07_deepcopy_exec_iso_onto.
+
 (* ------------------------------------------------------------------ non-vacuity: a concrete heap.
    Library 1 with blocks [Entry 5 (key 100); DuplicateBlockKeyBlock 10 -> previous 5, duplicate Entry 12 (key 100)],
    one field each; BibtexFormat 9 with value_column = atom 7 ('auto'). *)
